@@ -46,4 +46,22 @@ theorem part_with_codes_oob (D : Nat) (codes : Array PrefixCode) (shift a : Nat)
   simp only [List.foldlM_toArray', List.foldlM_cons, h2]
   rfl
 
+/-! non-vacuity: a concrete table (three codes of 1, 2, 2 bits / 2, 4, 4 bits, one ended code) and inputs -/
+
+private def exCodes2 : Array PrefixCode := #[{ content := 0, len := 1 }, { content := 2, len := 2 }, { content := 3, len := 2 }]
+private def exCodes4 : Array PrefixCode := #[{ content := 1, len := 2 }, { content := 9, len := 4 }, { content := 14, len := 4 }]
+
+example : Huff.partitionWithCodes 2 #[2, 0, 1, 2, 0, 1] 1 exCodes2 = .ok #[2, 1, 2, 1, 0, 0] := by rfl
+example : Huff.partitionWithCodes 4 #[2, 0, 1, 2, 0, 1] 2 exCodes4 = .ok #[1, 1, 2, 2, 0, 0] := by rfl
+example : (∀ s ∈ [2, 0, 1, 2, 0, 1], s < exCodes2.size ∧ s < two64) := by decide
+example : (∀ s : Nat, 2 ∣ exCodes4[s]!.len) := by
+  intro s
+  match s with
+  | 0 => decide
+  | 1 => decide
+  | 2 => decide
+  | n + 3 => simp [exCodes4]; exact ⟨0, rfl⟩
+example : Huff.partitionWithCodes 4 #[7] 2 exCodes4 = .error Fault.indexPanic :=
+  part_with_codes_oob 4 exCodes4 2 7 (by decide) (by decide)
+
 end Qwt.Props.C17
